@@ -9,7 +9,10 @@
 (*             or CPACR.cp<n> = 00                                         *)
 (*             or (CPACR.cp<n> = 01 and the mode is User)                  *)
 (* and otherwise reaches the coprocessor hook (outcome notimpl:coproc..);   *)
-(* CPACR.cp<n> = 10 is UNPREDICTABLE.                                      *)
+(* CPACR.cp<n> = 10 is UNPREDICTABLE.  With the Virtualization Extensions: *)
+(* CPACR does not apply in Hyp mode, and a Non-secure access that is not   *)
+(* denied is trapped to Hyp mode when HCPTR.TCP<n> = 1 (from Hyp mode      *)
+(* itself it is UNDEFINED).                                                *)
 (***************************************************************************)
 EXTENDS Props
 VARIABLES sc
@@ -29,22 +32,26 @@ S(p) ==
   [R |-> [r \in RNames |-> IF r = "PC" THEN <<0, 64>> ELSE <<0, 96>>], cpsr |-> <<0, p.mode>>,
    spsr |-> [m \in SpsrNames |-> Zero], elr |-> Zero,
    sys |-> [SCTLR |-> MkWordBits(<< <<22, 1>> >>), SCR |-> <<0, p.ns>>, HCR |-> Zero, HSCTLR |-> Zero, VBAR |-> Zero, MVBAR |-> Zero,
-            HVBAR |-> Zero, NSACR |-> <<0, p.nsacr * 2^p.cp>>, CPACR |-> LSLw(<<0, p.acc>>, 2 * p.cp), HCPTR |-> Zero,
+            HVBAR |-> Zero, NSACR |-> <<0, p.nsacr * 2^p.cp>>, CPACR |-> LSLw(<<0, p.acc>>, 2 * p.cp), HCPTR |-> <<0, p.tcp * 2^p.cp>>,
+            HSTR |-> Zero,
             DFSR |-> Zero, DFAR |-> Zero, MPUIR |-> Zero],
    mem |-> [devs |-> <<[b |-> Zero, n |-> 256]>>, base |-> <<[j \in 1..256 |-> 0]>>, w |-> <<>>],
    ev |-> [evreg |-> 0, wfe |-> 0, wfi |-> 0],
-   cfg |-> [arch |-> 7, pmsa |-> TRUE, sec |-> p.sec, virt |-> FALSE, lpae |-> FALSE, v7r |-> FALSE]]
+   cfg |-> [arch |-> 7, pmsa |-> TRUE, sec |-> p.sec, virt |-> p.virt, lpae |-> FALSE, v7r |-> FALSE]]
 Init == sc = [stage |-> 0]
 Pick == sc.stage = 0 /\ \E kind \in Kinds, cp \in {0, 7, 9, 12, 13, 14, 15}, acc \in 0..3, nsacr \in {0, 1}, ns \in {0, 1}, sec \in BOOLEAN,
-                          mode \in {16, 19, 17, 31, 22} :
-          /\ (mode = 22 => sec) /\ (~sec => ns = 0)
-          /\ sc' = [stage |-> 1, kind |-> kind, cp |-> cp, acc |-> acc, nsacr |-> nsacr, ns |-> ns, sec |-> sec, mode |-> mode]
+                          mode \in {16, 19, 17, 31, 22, 26}, virt \in BOOLEAN, tcp \in {0, 1} :
+          /\ (mode = 22 => sec) /\ (~sec => ns = 0) /\ (virt => sec) /\ (mode = 26 => virt /\ ns = 1) /\ (~virt => tcp = 0)
+          /\ sc' = [stage |-> 1, kind |-> kind, cp |-> cp, acc |-> acc, nsacr |-> nsacr, ns |-> ns, sec |-> sec, mode |-> mode,
+                    virt |-> virt, tcp |-> tcp]
 Next == Pick
 Spec == Init /\ [][Next]_vars
 Done == sc.stage = 1
 R == StepF(S(sc), [n |-> "Exec", w |-> Word(sc.kind, sc.cp), len |-> 32])
 NonSecure == sc.sec /\ sc.ns = 1 /\ sc.mode # 22
-Denied == (NonSecure /\ sc.nsacr = 0) \/ sc.acc = 0 \/ (sc.acc = 1 /\ sc.mode = 16)
+InHyp == sc.mode = 26
+Denied == (NonSecure /\ sc.nsacr = 0) \/ ((~InHyp) /\ (sc.acc = 0 \/ (sc.acc = 1 /\ sc.mode = 16)))
+Trapped == sc.virt /\ NonSecure /\ sc.tcp = 1
 \* CP14 / CP15: the access-control registers do not govern these spaces; which instruction forms exist does.
 \* (property-side statement: a CDP, a CP15 LDC/STC and a CP14 MCRR do not exist = UNDEFINED; the register and
 \* register-pair transfers reach the system-register decode, which the emulator documents as not implemented;
@@ -58,7 +65,9 @@ SysIndepOK == SysSpace =>
   R.out = StepF(S([sc EXCEPT !.acc = 3, !.nsacr = 1]), [n |-> "Exec", w |-> Word(sc.kind, sc.cp), len |-> 32]).out
 GatingOK == (Done /\ sc.cp < 14) =>
   IF Denied THEN R.exact /\ R.out = "undef" /\ R.s = TakeUndefInstr(S(sc))
-  ELSE IF sc.acc = 2 THEN ~R.exact
+  ELSE IF sc.acc = 2 /\ ~InHyp THEN ~R.exact
+  ELSE IF Trapped THEN (IF InHyp THEN R.exact /\ R.out = "undef" /\ R.s = TakeUndefInstr(S(sc))
+                        ELSE R.exact /\ R.out = "hyptrap" /\ R.s = TakeHypTrap(S(sc)) /\ PM(R.s.cpsr) = 26)
   ELSE (~R.exact) /\ R.out \in {"notimpl:coproc", "notimpl:coproc-mem"}
 \* the words really are the instructions they are meant to be
 WordsOK == Done => LET i == Decode(0, Word(sc.kind, sc.cp), 32, [it |-> 0, arch |-> 7, hyp |-> FALSE]) IN
